@@ -3552,9 +3552,11 @@ h2_process_streams (connection * const con,
                 if (r->handler_module && !r->resp_body_finished) {
                     const plugin * const p = r->handler_module;
                     if (p->handle_subrequest(r, p->data)
-                        > HANDLER_WAIT_FOR_EVENT) {
+                        > HANDLER_WAIT_FOR_EVENT
+                        || r->state == CON_STATE_ERROR) {
                       /*case HANDLER_COMEBACK:*//*error after send resp hdrs*/
                       /*case HANDLER_ERROR:*/
+                      /*(or handler flagged incomplete response as error)*/
                         request_set_state_error(r, CON_STATE_ERROR);
                         break;
                     }
